@@ -58,14 +58,19 @@ def check(prop, tier, seed, replay=None):
                     # comparison operand of the target type
                     a_str = spec_strides(sk, ssp, es, v.get('str'), v.get('pv'))
                     es2 = list(es)
-                    mode = rnd.choice(['same', 'same', 'ext', 'str'])
+                    mode = rnd.choice(['same', 'same', 'ext', 'str', 'wrap'])
+                    wrapv = 2 ** min(C.ITYPES[t][0], C.ITYPES[u][0])      # congruent modulo the narrower index type: must compare unequal
                     if mode == 'ext' and r: es2[rnd.randrange(r)] += 1
                     b = dict(ext2=es2)
                     if dk == 'stride':
                         s2 = list(a_str) if len(a_str) == len(es2) else lstr(es2)
                         if mode == 'str' and r: s2[rnd.randrange(r)] += 1
+                        if mode == 'wrap' and r:
+                            k = rnd.randrange(r)
+                            if s2[k] + wrapv <= C.hi(u): s2[k] += wrapv
                         b['str2'] = s2
-                    elif dk in ('lpad', 'rpad') and dsp == 'D' and 'pv' in v: b['pv2'] = v['pv'] if mode != 'str' else v['pv'] + 1
+                    elif dk in ('lpad', 'rpad') and dsp == 'D' and 'pv' in v:
+                        b['pv2'] = v['pv'] if mode not in ('str', 'wrap') else (v['pv'] + 1 if mode == 'str' else (v['pv'] + wrapv if v['pv'] + wrapv <= C.hi(u) else v['pv'] + 1))
                     l2 = G.line('mapeq', i) + ' ext=%s' % C.fmt(es) + (' str=%s' % C.fmt(v['str']) if 'str' in v else '') + (' pv=%d' % v['pv'] if 'pv' in v else '') + \
                          ' ext2=%s' % C.fmt(b['ext2']) + (' str2=%s' % C.fmt(b['str2']) if 'str2' in b else '') + (' pv2=%d' % b['pv2'] if 'pv2' in b else '')
                     eqs.append((l2, dict(inst=list(i), a=dict(ext=es, **v), b=b)))
@@ -74,7 +79,7 @@ def check(prop, tier, seed, replay=None):
     rep.notes['conversions_with_precondition'] = len(conv); rep.notes['comparisons'] = len(eqs)
     lines = [l for l, _ in conv] + [l for l, _ in eqs]
     mout = [canon(x) for x in C.driver(lines)]
-    configs = ['gcc20-ubsan'] + (['clang20-ubsan', 'gcc17-ubsan'] if thorough else [])
+    configs = ['gcc20-ubsan', 'gcc17-ubsan'] + (['clang20-ubsan', 'clang17-O0-ndebug-emul'] if thorough else [])      # C++17: hand-written operator!=
     pairs_seen = {}
     for cfg in configs:
         try: exe, secs, cached = build(cfg)
